@@ -39,7 +39,7 @@ RULE = ("random scripted model classes (constructor / step bodies of DataCollect
         ">= 2 rows; distinct = distinct op-line sequences (sha1)")
 
 run_impl = CC.run_impl
-oracle = CC.oracle_batch
+oracle = CC.guarded(CC.oracle_batch)
 
 
 def generate(rng, tier, count):
